@@ -63,14 +63,14 @@ def int_value(text):
     return v
 
 
-def tokens(data, files=None, depth=0):
+def tokens(data, files=None, depth=0, nothing=False):
     """-> list of transcript lines as the harness prints them for 'lex' (NUL-free input).  Without [files] the list
     ends at the first include directive with an INCLUDE marker (callers decide what an include does); with [files]
     (a dict path -> content) a directive at the beginning of a line is replaced by the tokens of the named file,
     scanned from its own line 1, after which the including text goes on in the middle of its line (so a second
     directive on that line is not one); a missing file or the 11th level is an error token at the directive."""
     out = []
-    st = _scan(data, files, depth, out)
+    st = _scan(data, files, depth, out, nothing)
     if st == "eof":
         out.append("K Z %d" % out.pop())
         out.append("R eof")
@@ -81,7 +81,7 @@ def tokens(data, files=None, depth=0):
     return out
 
 
-def _scan(data, files, depth, out):
+def _scan(data, files, depth, out, nothing=False):
     """appends token lines to out; returns 'eof' (then the last element of out is the final line number, to be popped
     by the caller), 'err', 'stuck' or 'include' (marker appended)"""
     pos, line, bol = 0, 1, True
@@ -146,10 +146,12 @@ def _scan(data, files, depth, out):
                     out.append("INCLUDE %s %d" % (bytes(acc).hex(), line))
                     return "include"    # callers decide what an include does
                 path = bytes(acc).split(b"\0")[0]
+                if nothing:
+                    continue            # an include function that returns no file: the directive expands to nothing
                 if depth >= 10 or path not in files:
                     out.append("K E %d" % line)
                     return "err"
-                sub = _scan(files[path], files, depth + 1, out)
+                sub = _scan(files[path], files, depth + 1, out, nothing)
                 if sub != "eof":
                     return sub
                 out.pop()               # the included file's last line number
